@@ -863,4 +863,142 @@ theorem dibits_to_points_eq (d : List Int) (hd : d.length < 2 ^ 53) :
   | ok ps => simp [ofR]
 
 
+
+/-! ### `tribits_to_bits` -/
+
+theorem bitK (k b : Nat) : (b &&& 2 ^ k = 0) ↔ b / 2 ^ k % 2 = 0 := by
+  have hT : b.testBit k = decide (b / 2 ^ k % 2 = 1) := Nat.testBit_eq_decide_div_mod_eq
+  constructor
+  · intro h
+    have : (b &&& 2 ^ k).testBit k = false := by rw [h]; simp
+    rw [Nat.testBit_and, Nat.testBit_two_pow_self, Bool.and_true, hT] at this
+    simp at this; omega
+  · intro h
+    apply Nat.eq_of_testBit_eq
+    intro i
+    rw [Nat.testBit_and, Nat.testBit_two_pow, Nat.zero_testBit]
+    by_cases hi : k = i
+    · subst hi; rw [hT]; simp; omega
+    · simp [hi]
+
+theorem bandpos (t k : Nat) : decide (band (t : Int) ((2 ^ k : Nat) : Int) > 0) = (t / 2 ^ k % 2 == 1) := by
+  rw [band_ofNat]
+  by_cases h : t / 2 ^ k % 2 = 0
+  · have := (bitK k t).mpr h
+    rw [this]; simp [h]
+  · have hne : t &&& 2 ^ k ≠ 0 := fun c => h ((bitK k t).mp c)
+    have h1 : t / 2 ^ k % 2 = 1 := by omega
+    have : ((t &&& 2 ^ k : Nat) : Int) > 0 := by omega
+    have hp : 0 < t &&& 2 ^ k := Nat.pos_of_ne_zero hne
+    simp [hp, h1]
+
+def idxs3 (k m : Nat) : List Int := (List.range m).map (fun j => ((3 * (k + j) : Nat) : Int))
+
+theorem idxs3_succ (k m : Nat) : idxs3 k (m + 1) = ((3 * k : Nat) : Int) :: idxs3 (k + 1) m := by
+  unfold idxs3
+  rw [List.range_succ_eq_map, List.map_cons, List.map_map]
+  simp only [Nat.add_zero, List.cons.injEq, true_and]
+  apply List.map_congr_left
+  intro j _
+  simp only [Function.comp]; congr 2; omega
+
+theorem baSet_mid (A B : List Bool) (x v : Bool) (k : Nat) (h : k = A.length) :
+    PyArr.baSet (A ++ x :: B) v (k : Int) = .ok (A ++ v :: B) := by
+  subst h
+  unfold PyArr.baSet
+  rw [normIndex_ofNat]
+  simp
+
+theorem truncDiv3 (k : Nat) (h : 3 * k < 2 ^ 53) : PyArr.truncDiv ((3 * k : Nat) : Int) 3 = .ok (k : Int) := by
+  unfold PyArr.truncDiv
+  have : (0 : Int) ≤ ((3 * k : Nat) : Int) ∧ ((3 * k : Nat) : Int) < 2 ^ 53 := ⟨by omega, by exact_mod_cast h⟩
+  rw [if_pos this]
+  congr 1
+  omega
+
+def t2bBody (tribits : List Int) (i : Int) (out : List Bool) : PyM (List Bool) := do
+  let o ← PyArr.truncDiv i 3
+  let out ← PyArr.baSet out (decide (band (← getI tribits o) 4 > 0)) i
+  let out ← PyArr.baSet out (decide (band (← getI tribits o) 2 > 0)) (i + 1)
+  PyArr.baSet out (decide (band (← getI tribits o) 1 > 0)) (i + 2)
+
+theorem t2b_loop (tail : List Nat) : ∀ (rest done : List Nat) (A B : List Bool),
+    A.length = 3 * done.length → B.length = 3 * rest.length → done.length + rest.length ≤ 1000 →
+    forEach (idxs3 done.length rest.length) (A ++ B) (t2bBody ((done ++ rest ++ tail).map (fun x : Nat => (x : Int))))
+    = .ok (A ++ rest.flatMap tribitBits) := by
+  intro rest
+  induction rest with
+  | nil =>
+    intro done A B _ hB _
+    have : B = [] := List.eq_nil_of_length_eq_zero (by simpa using hB)
+    subst this
+    simp [idxs3]
+  | cons t ts ih =>
+    intro done A B hA hB hn
+    obtain ⟨x1, x2, x3, B', rfl⟩ : ∃ x1 x2 x3 B', B = x1 :: x2 :: x3 :: B' := by
+      match B, hB with
+      | x1 :: x2 :: x3 :: B', _ => exact ⟨x1, x2, x3, B', rfl⟩
+      | [], h => simp at h
+      | [_], h => simp at h; omega
+      | [_, _], h => simp at h; omega
+    rw [List.length_cons, idxs3_succ, forEach_cons]
+    have hg : getI ((done ++ t :: ts ++ tail).map (fun x : Nat => (x : Int))) (done.length : Int) = .ok (t : Int) := by
+      rw [List.append_assoc, List.cons_append]
+      exact getI_cast_mid done (ts ++ tail) t
+    have e1 : ((3 * done.length : Nat) : Int) + 1 = ((3 * done.length + 1 : Nat) : Int) := by push_cast; rfl
+    have e2 : ((3 * done.length : Nat) : Int) + 2 = ((3 * done.length + 2 : Nat) : Int) := by push_cast; rfl
+    have hb : t2bBody ((done ++ t :: ts ++ tail).map (fun x : Nat => (x : Int))) ((3 * done.length : Nat) : Int)
+        (A ++ x1 :: x2 :: x3 :: B') = .ok (A ++ tribitBits t ++ B') := by
+      unfold t2bBody
+      rw [truncDiv3 _ (by omega)]
+      simp only [ok_bind, hg, e1, e2]
+      rw [baSet_mid A _ x1 _ _ hA.symm]
+      simp only [ok_bind]
+      rw [show A ++ decide (band (t : Int) 4 > 0) :: x2 :: x3 :: B' = (A ++ [decide (band (t : Int) 4 > 0)]) ++ x2 :: x3 :: B' by simp,
+        baSet_mid _ _ x2 _ _ (by simp; omega)]
+      simp only [ok_bind]
+      rw [show (A ++ [decide (band (t : Int) 4 > 0)]) ++ decide (band (t : Int) 2 > 0) :: x3 :: B'
+          = (A ++ [decide (band (t : Int) 4 > 0), decide (band (t : Int) 2 > 0)]) ++ x3 :: B' by simp,
+        baSet_mid _ _ x3 _ _ (by simp; omega)]
+      have b4 := bandpos t 2
+      have b2 := bandpos t 1
+      have b1 := bandpos t 0
+      simp only [Nat.pow_zero, Nat.div_one] at b1
+      rw [show ((2 ^ 2 : Nat) : Int) = 4 from rfl] at b4
+      rw [show ((2 ^ 1 : Nat) : Int) = 2 from rfl] at b2
+      rw [show ((1 : Nat) : Int) = 1 from rfl] at b1
+      rw [b4, b2, b1]
+      simp [tribitBits]
+    rw [hb, ok_bind]
+    have := ih (done ++ [t]) (A ++ tribitBits t) B' (by simp [hA, tribitBits]; omega) (by simp at hB; omega)
+      (by simp at hn ⊢; omega)
+    simp only [List.length_append, List.length_cons, List.length_nil, List.append_assoc, List.cons_append,
+      List.nil_append] at this
+    simp only [List.flatMap_cons, List.append_assoc, List.cons_append, Nat.zero_add] at this ⊢
+    exact this
+
+/-- `tribits_to_bits`, every array of naturals: the model's `tribitsToBits` (`AssertionError` unless 49 tribits; the 49th is
+dropped) -/
+theorem tribits_to_bits_eq (ts : List Nat) :
+    tribits_to_bits (ts.map (fun x : Nat => (x : Int))) = ofR id (tribitsToBits ts) := by
+  have h : tribits_to_bits (ts.map (fun x : Nat => (x : Int)))
+      = (assert (len (ts.map (fun x : Nat => (x : Int))) == 49) >>= fun _ =>
+          forEach (range3p 0 144 3) (PyArr.baZeros 144) (t2bBody (ts.map (fun x : Nat => (x : Int))))) := by
+    unfold tribits_to_bits t2bBody; rfl
+  rw [h, assert_bind]
+  unfold tribitsToBits
+  by_cases hl : ts.length = 49
+  · have hc : (len (ts.map (fun x : Nat => (x : Int))) == 49) = true := by simp [hl]
+    rw [if_pos hc, if_pos hl]
+    have hr : range3p 0 144 3 = idxs3 0 48 := by decide
+    rw [hr]
+    have hsplit : ts = [] ++ ts.take 48 ++ ts.drop 48 := by simp
+    have := t2b_loop (ts.drop 48) (ts.take 48) [] [] (PyArr.baZeros 144) rfl (by simp [PyArr.baZeros]; omega) (by simp; omega)
+    simp only [List.nil_append, List.length_nil, List.take_append_drop, List.length_take, hl] at this
+    exact this
+  · have hc : ¬ ((len (ts.map (fun x : Nat => (x : Int))) == 49) = true) := by
+      simp only [len_eq, List.length_map, beq_iff_eq]; omega
+    rw [if_neg hc, if_neg hl]; rfl
+
+
 end Dmr.Transl.Trellis
